@@ -48,7 +48,7 @@ func ruleEpochCacheShapes(c *eng.Ctx) {
 		okPred := false
 		if pred != nil {
 			for _, r := range eng.Returns(pred) {
-				if eng.Bin(token.GEQ, eng.LoadNamed("leaderEpoch", nil), freeVarNamed("epoch"))(eng.RetVals(r)[0]) {
+				if eng.RelVal(eng.LoadNamed("leaderEpoch", nil), freeVarNamed("epoch"), eng.GE)(eng.RetVals(r)[0]) {
 					okPred = true
 				}
 			}
@@ -178,7 +178,7 @@ func ruleEpochCacheShapes(c *eng.Ctx) {
 		okPred := false
 		if pred != nil {
 			for _, r := range eng.Returns(pred) {
-				if eng.Bin(token.GEQ, eng.LoadNamed("startOffset", nil), freeVarNamed("offset"))(eng.RetVals(r)[0]) {
+				if eng.RelVal(eng.LoadNamed("startOffset", nil), freeVarNamed("offset"), eng.GE)(eng.RetVals(r)[0]) {
 					okPred = true
 				}
 			}
